@@ -137,7 +137,7 @@ def gen_program(rng, profile, tier, opts, contraction, nsteps, op_reuse=False):
             break
         if st["k"] == "config":
             continue
-        if op_reuse and st["k"] == "apply":
+        if op_reuse and st["k"] == "apply" and "op_id" not in st:
             # reuse an earlier operation description where it fits the new target kinds
             fits = [(j, o) for j, o in enumerate(ops_seen) if o["fam"] == st["op"]["fam"] and o["fam"] != "comp"
                     and o["type"] not in ("Custom", "Expresion")]
